@@ -64,6 +64,12 @@ def build(case):
             y += ('    long_running:\n      initial_poll_delay: 1s\n      poll_delay_multiplier: 1.5\n      max_poll_delay: 5s\n'
                   '      total_poll_timeout: 60s\n')
         y += '    auto_populated_fields:\n' + ''.join(f'    - {x}\n' for x in fields_)
+    if case.get('selective') is not None:
+        # selective generation that keeps the unlisted methods as internal ones: their settings still apply
+        y += ('  library_settings:\n'
+              f'  - version: {P}\n    python_settings:\n      common:\n        selective_gapic_generation:\n'
+              '          generate_omitted_as_internal: true\n          methods:\n'
+              + ''.join(f'          - {P}.{svc_of.get(m_, "Auto")}.{m_}\n' for m_ in case['selective']))
     req = request([f], 'transport=grpc+rest,autogen-snippets=false,service-yaml=@svc.yaml@' + (
         ',python-gapic-templates=ads-templates,old-naming' if case.get('ads') else ''))
     if case.get('layout') == 'subpackages':
@@ -151,6 +157,11 @@ def cases():
     for c in list(out):
         if c['id'] in ('two-methods', 'two-services', 'two-fields/both-valid'):
             out.append(dict(c, id=c['id'] + '|ads-templates', ads=True))
+    for c in list(out):
+        if c['id'] == 'two-methods':
+            # only Plain (no settings) / only Do (settings) is listed; the others are emitted as internal methods of BaseAutoClient
+            out.append(dict(c, id=c['id'] + '|selective-internal/plain-listed', selective=['Plain']))
+            out.append(dict(c, id=c['id'] + '|selective-internal/do-listed', selective=['Do']))
     return out
 
 
@@ -158,7 +169,11 @@ def make_job(case):
     req, of = build(case)
     return dict(id=case['id'], req=req.SerializeToString(), opt_files=of, probe='mc.probes.autopop' if case['drive'] else None,
                 probe_args=dict(package=P if case.get('ads') else names.import_package(P), proto_package=P, no_aio=bool(case.get('ads')),
-                                drive=[[m, [[n, d['optional']] for n, d in fs], case.get('services', {}).get(m, 'Auto')] for m, fs in case['drive']],
+                                drive=[[m, [[n, d['optional']] for n, d in fs],
+                                        ('Base' if case.get('selective') is not None else '') + case.get('services', {}).get(m, 'Auto')]
+                                       for m, fs in case['drive']],
+                                method_prefix='_', internal_methods=([m for m in case['methods'] if m not in case['selective']]
+                                                                     if case.get('selective') is not None else []),
                                 all_auto=[n for n, d in case['fields']]),
                 _case=case)
 
